@@ -166,8 +166,22 @@ def corr(ctx, oracle_only=False):
                     ok = all((s == v) or (s == 0 and (v < 1 or i <= po['RdfIdx'][p] or size[i] < po['minRadius'])) for i, (s, v) in enumerate(zip(stored, xproc)))
                     if not ok or stored.min() < 0:
                         res.violate('stored-psd-not-truncation', 'stored PSD is not the state with classes < 1 (and unstable classes) set to 0', case)
-                    if not (-1e-9 * m0 <= m0 - float(stored.sum()) <= n + 1e-9 * m0):
-                        res.violate('truncation-slack', 'M0(state) - M0(stored) outside [0, #classes]', case, m0 - float(stored.sum()), n)
+                    slack = m0 - float(stored.sum())
+                    if not (-1e-9 * m0 <= slack <= n + 1e-9 * m0):
+                        # known finding: a class whose growth rate changes sign inside it (left face drains to the smaller class,
+                        # right face to the larger one) is limited FACE BY FACE, so it may lose up to twice what it holds when it
+                        # lies below the dissolution index (no step limit): the state goes negative there and is zeroed on storing.
+                        # Only that specific mechanism is matched: every negative class drains through both faces, each face obeys
+                        # the limiter, and the negative entries account for the whole slack.
+                        neg = [i for i in range(n) if xproc[i] < 0]
+                        both = [i for i in neg if nf[i] < 0 < nf[i + 1] and -nf[i] * dt <= xold[i] * (1 + 1e-9) and nf[i + 1] * dt <= xold[i] * (1 + 1e-9)]
+                        negsum = -float(sum(xproc[i] for i in neg))
+                        if neg and len(both) == len(neg) and -1e-9 * m0 <= slack + negsum <= n + 1e-9 * m0:
+                            res.violate('class-drained-through-both-faces', 'a class below the dissolution index lost more than it held (growth '
+                                        'rate changes sign inside it, both faces limited separately); the negative population is zeroed on storing',
+                                        dict(case, classes=neg[:5], created=negsum), slack, n)
+                        else:
+                            res.violate('truncation-slack', 'M0(state) - M0(stored) outside [0, #classes]', case, slack, n)
                 elif post['bins'] > pre['bins'] and abs(post['bounds'][0] - pre['bounds'][0]) <= 1e-12 * pre['bounds'][0] and \
                         close((post['bounds'][1] - post['bounds'][0]) / post['bins'], (pre['bounds'][1] - pre['bounds'][0]) / pre['bins'], 1e-9):
                     res.count('update:extended')
